@@ -32,6 +32,8 @@ def _child_body(world, index, tier, seed, replay, want_decoded):
     env.IdSource.n = 0
     env.IdSource.probe_n = 0
     env.IdSource.run = index
+    env.Entropy.run = index
+    env.Entropy.n = 0
     if env.TEMP_NAMES is not None:
         env.TEMP_NAMES.n = 0        # process-global counter: a run must not inherit what its parent consumed
     import random
